@@ -96,20 +96,24 @@ def startEndStrings (s : List Char) : List Char × List Char :=
 /-- `glob_to_iptuple(ipglob)`: `(int(start), int(end))`, both IPv4 -/
 def globToIptuple (s : List Char) : R (Nat × Nat) :=
   if !validGlob s then .error .addrFormat
-  else do
-    let se := startEndStrings s
-    let lo ← ipAddress4 se.1
-    let hi ← ipAddress4 se.2
-    pure (lo, hi)
+  else
+    match ipAddress4 (startEndStrings s).1 with
+    | .error e => .error e
+    | .ok lo =>
+      match ipAddress4 (startEndStrings s).2 with
+      | .error e => .error e
+      | .ok hi => .ok (lo, hi)
 
 /-- `glob_to_iprange(ipglob)`: `IPRange(start, end)` (which rejects start > end) -/
 def globToIprange (s : List Char) : R Rng :=
   if !validGlob s then .error .addrFormat
-  else do
-    let se := startEndStrings s
-    let lo ← ipAddress4 se.1
-    let hi ← ipAddress4 se.2
-    if lo > hi then .error .addrFormat else pure ⟨4, lo, hi⟩
+  else
+    match ipAddress4 (startEndStrings s).1 with
+    | .error e => .error e
+    | .ok lo =>
+      match ipAddress4 (startEndStrings s).2 with
+      | .error e => .error e
+      | .ok hi => if lo > hi then .error .addrFormat else .ok ⟨4, lo, hi⟩
 
 /-- `[int(_) for _ in str(ip).split('.')]` of an IPv4 address -/
 def octets4 (v : Nat) : List Nat := [v / 2 ^ 24 % 256, v / 2 ^ 16 % 256, v / 2 ^ 8 % 256, v % 256]
